@@ -28,7 +28,7 @@ structure Token where
 
 /-- Error classes the tokenizer records (`errors.Is` is all `Next` looks at). -/
 inductive TErr where
-  | eof | ueof | io | other
+  | ueof | io | other
   deriving DecidableEq, Repr, Inhabited
 
 structure TR where
@@ -80,6 +80,32 @@ def keywordKind (s : List Byte) : Option TK :=
     | "Inf" => some .kInf | "NaN" => some .kNaN | "True" => some .kTrue | "False" => some .kFalse
     | "Import" => some .kImport | "Flags" => some .kFlags
     | _ => none
+
+def simpleKindOfName : String → Option TK
+  | "Equals" => some .equals | "OpenSquare" => some .openSquare | "CloseSquare" => some .closeSquare
+  | "OpenCurly" => some .openCurly | "CloseCurly" => some .closeCurly | "OpenParen" => some .openParen
+  | "CloseParen" => some .closeParen | "Comma" => some .comma | "Semicolon" => some .semicolon
+  | "Newline" => some .newline | "VerticalBar" => some .vbar | "Ampersand" => some .amp | "Colon" => some .colon
+  | _ => none
+
+/-- The one-byte simple terminals, straight from the regenerated `tt.add` table. -/
+def singleByteKind (c : Byte) : Option TK :=
+  (Facts.tokenTreeAdds.find? (fun e => e.1 == [c.toNat])).bind (fun e => simpleKindOfName e.2)
+
+/-- The part of the token tree that is NOT a one-byte simple terminal; the model below hard-codes exactly
+    this shape (and the skip set), and `tokenTree_as_modelled` re-checks it against the regenerated table. -/
+def multiByteShape : List (List Nat × String) :=
+  [([45, 62], "Arrow"), ([62, 62], "DoubleCaretRight"), ([60, 60], "DoubleCaretLeft"),
+   ([45, 105, 110, 102], "NegativeInf"), ([34], "stringLiteralToken"), ([47, 47], "lineCommentToken"),
+   ([47, 42], "blockCommentToken")] ++
+  (List.range 10).flatMap (fun d => [([45, 48 + d], "numberToken"), ([48 + d], "numberToken")])
+
+/-- How `tokenTree.findFirst` ended: a token was built; no byte-driven token starts here; or the input
+    ended cleanly before any token (Go records io.EOF there, and `Next` removes it again at once, so the
+    model never stores it). -/
+inductive FR where
+  | tok | no | eof
+  deriving DecidableEq, Repr, Inhabited
 
 /-- Result of a token builder: the token (possibly `{}`), and whether `find` reports `ok`. -/
 abbrev Built := Token × Bool × TR
@@ -156,51 +182,42 @@ def stringLoop : Nat → TR → List Byte → Bool → Token × TR
 def stringLiteralToken (t : TR) (conc : List Byte) : Token × TR :=
   stringLoop (t.inp.length + 1) t conc false
 
-def simple (k : TK) (conc : List Byte) (t : TR) : Token × Bool × TR := ({ kind := k, concrete := conc }, true, t)
+def simple (k : TK) (conc : List Byte) (t : TR) : Token × FR × TR := ({ kind := k, concrete := conc }, .tok, t)
 
 /-- A non-root node of the token tree expecting exactly one of `opts` (sorted as nextValidBytes sorts
     them); each option continues with `k`. EOF: UnexpectedEOF error, not ok. Unexpected byte: record an
     error and greedily take the first option. -/
-def expectOne (t : TR) (conc : List Byte) (opts : List (Byte × (TR → List Byte → Token × Bool × TR))) :
-    Token × Bool × TR :=
+def expectOne (t : TR) (conc : List Byte) (opts : List (Byte × (TR → List Byte → Token × FR × TR))) :
+    Token × FR × TR :=
   match readByte t with
-  | (.eof, t1) => ({}, false, addErr t1 .ueof)
-  | (.ioerr, t1) => ({}, false, addErr t1 .io)
+  | (.eof, t1) => ({}, .no, addErr t1 .ueof)
+  | (.ioerr, t1) => ({}, .no, addErr t1 .io)
   | (.byte c, t1) =>
     match opts.find? (·.1 == c) with
     | some (_, k) => k t1 (conc ++ [c])
     | none =>
       match opts with
       | (c0, k) :: _ => k (addErr t1 .other) (conc ++ [c0])
-      | [] => ({}, false, t1)
+      | [] => ({}, .no, t1)
 
-def wrap (f : TR → List Byte → Token × TR) : TR → List Byte → Token × Bool × TR :=
-  fun t conc => let (tk, t') := f t conc; (tk, true, t')
+def wrap (f : TR → List Byte → Token × TR) : TR → List Byte → Token × FR × TR :=
+  fun t conc => let (tk, t') := f t conc; (tk, .tok, t')
 
 /-- tokenTree.findFirst: skip blanks at the root, then dispatch on the first byte. `none` for the token
     means "no byte-driven token starts here" (ok = false, no error added). -/
-def findFirst : Nat → TR → Token × Bool × TR
-  | 0, t => ({}, false, t)
+def findFirst : Nat → TR → Token × FR × TR
+  | 0, t => ({}, .no, t)
   | fuel+1, t =>
     match readByte t with
-    | (.eof, t1) => ({}, false, addErr t1 .eof)
-    | (.ioerr, t1) => ({}, false, addErr t1 .io)
+    | (.eof, t1) => ({}, .eof, t1)
+    | (.ioerr, t1) => ({}, .no, addErr t1 .io)
     | (.byte c, t1) =>
-      if c == 32 || c == 9 || c == 13 then findFirst fuel t1
-      else if c == b '=' then simple .equals [c] t1
-      else if c == b '[' then simple .openSquare [c] t1
-      else if c == b ']' then simple .closeSquare [c] t1
-      else if c == b '{' then simple .openCurly [c] t1
-      else if c == b '}' then simple .closeCurly [c] t1
-      else if c == b '(' then simple .openParen [c] t1
-      else if c == b ')' then simple .closeParen [c] t1
-      else if c == b ',' then simple .comma [c] t1
-      else if c == b ';' then simple .semicolon [c] t1
-      else if c == 10 then simple .newline [c] t1
-      else if c == b '|' then simple .vbar [c] t1
-      else if c == b '&' then simple .amp [c] t1
-      else if c == b ':' then simple .colon [c] t1
-      else if c == b '"' then wrap stringLiteralToken t1 [c]
+      if Facts.tokenTreeSkips.contains c.toNat then findFirst fuel t1
+      else
+      match singleByteKind c with
+      | some k => simple k [c] t1
+      | none =>
+      if c == b '"' then wrap stringLiteralToken t1 [c]
       else if isNumeric c then wrap numberToken t1 [c]
       else if c == b '>' then expectOne t1 [c] [(b '>', fun t conc => simple .dblRight conc t)]
       else if c == b '<' then expectOne t1 [c] [(b '<', fun t conc => simple .dblLeft conc t)]
@@ -209,8 +226,8 @@ def findFirst : Nat → TR → Token × Bool × TR
       else if c == b '-' then
         -- successors of '-': '>' , 'i', digits; sorted: ">" < "i" < "number"
         match readByte t1 with
-        | (.eof, t2) => ({}, false, addErr t2 .ueof)
-        | (.ioerr, t2) => ({}, false, addErr t2 .io)
+        | (.eof, t2) => ({}, .no, addErr t2 .ueof)
+        | (.ioerr, t2) => ({}, .no, addErr t2 .io)
         | (.byte d, t2) =>
           if isNumeric d then wrap numberToken t2 [c, d]
           else if d == b 'i' then
@@ -218,7 +235,7 @@ def findFirst : Nat → TR → Token × Bool × TR
               expectOne t conc [(b 'f', fun t conc => simple .negInf conc t)])]
           else if d == b '>' then simple .arrow [c, d] t2
           else simple .arrow [c, b '>'] (addErr t2 .other)
-      else ({}, false, t1)
+      else ({}, .no, t1)
 
 /-- nextIdent (ASCII): letters, digits, underscore. -/
 def identLoop : Nat → TR → List Byte → Bool × TR
@@ -239,14 +256,14 @@ def next (t : TR) : Bool × TR :=
   if t.keep then (true, { t with keep := false })
   else
     let errCount := t.errs.length
-    let (tk, ok, t1) := findFirst (t.inp.length + 1) t
-    -- if len(tr.errs) != 0 { ... }
+    let (tk, r, t1) := findFirst (t.inp.length + 1) t
+    -- if len(tr.errs) != 0 { ... }: a clean end of input is io.EOF, removed again at once
+    if r == .eof then (false, t1) else
     match t1.errs.getLast? with
-    | some .eof => (false, { t1 with errs := t1.errs.dropLast })
     | some .ueof => (false, t1)
     | lastErr =>
-      if lastErr.isSome && !ok && t1.errs.length > errCount then (false, t1)   -- the reader failed
-      else if ok then (true, setNext t1 tk)
+      if lastErr.isSome && r != .tok && t1.errs.length > errCount then (false, t1)   -- the reader failed
+      else if r == .tok then (true, setNext t1 tk)
       else
         let t2 := unreadByte t1
         if t2.panicked then (false, t2) else
